@@ -106,6 +106,8 @@ type Exec struct {
 	noPrune bool
 	cuts    map[string]bool
 	nice    []*Term
+	symOnly bool
+	buffers map[string]*Term
 	fullTimeout int
 	freshRetries int
 }
